@@ -381,6 +381,22 @@ fn derive_b(rng: &mut Rng, a: &MMappings, cfg: &GenCfg) -> MMappings {
 	shuffled(rng, &b)
 }
 
+/// B with exactly A's keys in A's ORDER at every level (own b-names, own comments)
+fn mirror_b(rng: &mut Rng, a: &MMappings, docs: bool) -> MMappings {
+	let mut b = MMappings { ns: vec![a.ns[0].clone(), cps_str("named")], doc: None, classes: vec![] };
+	for ca in &a.classes {
+		let mut c = MClass { names: vec![ca.names[0].clone(), second(rng, &CLS2)], doc: doc_b(rng, &ca.doc, docs), fields: vec![], methods: vec![] };
+		for fa in &ca.fields { c.fields.push(MField { desc: fa.desc.clone(), names: vec![fa.names[0].clone(), second(rng, &MEM2)], doc: doc_b(rng, &fa.doc, docs) }); }
+		for ma in &ca.methods {
+			let mut m = MMeth { desc: ma.desc.clone(), names: vec![ma.names[0].clone(), second(rng, &MEM2)], doc: doc_b(rng, &ma.doc, docs), params: vec![] };
+			for pa in &ma.params { m.params.push(MParam { index: pa.index, names: vec![pa.names[0].clone(), second(rng, &PAR2)], doc: doc_b(rng, &pa.doc, docs) }); }
+			c.methods.push(m);
+		}
+		b.classes.push(c);
+	}
+	b
+}
+
 /// remove every documented conflict from B (so that the pair merges)
 fn sanitize(rng: &mut Rng, a: &MMappings, b: &mut MMappings) {
 	fn fix(rng: &mut Rng, a: &Option<S>, b: &mut Option<S>) { if docs_conflict(a, b) { *b = if rng.chance(1, 2) { a.clone() } else { None }; } }
@@ -516,19 +532,36 @@ fn key_rel<K: PartialEq>(ka: &[K], kb: &[K]) -> &'static str {
 		_ => "partial overlap (each side has own keys)",
 	}
 }
+/// relation of the two key LISTS in insertion order (what a positional zip of the two maps would see)
+fn key_order_rel<K: PartialEq>(ka: &[K], kb: &[K]) -> &'static str {
+	let common = ka.iter().zip(kb.iter()).take_while(|(x, y)| x == y).count();
+	match (ka.len(), kb.len()) {
+		(0, _) | (_, 0) => "a side is empty",
+		(la, lb) if common == la && la == lb => "same keys in the same order",
+		(la, lb) if common == la && la < lb => "A's key list is a strict prefix of B's, in order",
+		(la, lb) if common == lb && lb < la => "B's key list is a strict prefix of A's, in order",
+		(la, lb) if la == lb && ka.iter().all(|k| kb.contains(k)) => "same keys in another order",
+		_ if common > 0 => "lists agree on a first stretch, then differ",
+		_ => "lists differ at the first position",
+	}
+}
 /// which key-set relations occur, per level, between corresponding maps (the two class maps; the field / method maps
 /// of a class both sides have; the parameter maps of a method both sides have), and which combinations of
 /// first-namespace names occur on a parameter both sides have
 fn relations(a: &MMappings, b: &MMappings) -> BTreeSet<String> {
 	let mut out = BTreeSet::new();
 	out.insert(format!("keyrel:class:{}", key_rel(&a.classes.iter().map(ckey).collect::<Vec<_>>(), &b.classes.iter().map(ckey).collect::<Vec<_>>())));
+	out.insert(format!("keyorder:class:{}", key_order_rel(&a.classes.iter().map(ckey).collect::<Vec<_>>(), &b.classes.iter().map(ckey).collect::<Vec<_>>())));
 	for ca in &a.classes {
 		let Some(cb) = b.classes.iter().find(|c| ckey(c) == ckey(ca)) else { continue };
 		out.insert(format!("keyrel:field:{}", key_rel(&ca.fields.iter().map(fkey).collect::<Vec<_>>(), &cb.fields.iter().map(fkey).collect::<Vec<_>>())));
+		out.insert(format!("keyorder:field:{}", key_order_rel(&ca.fields.iter().map(fkey).collect::<Vec<_>>(), &cb.fields.iter().map(fkey).collect::<Vec<_>>())));
 		out.insert(format!("keyrel:method:{}", key_rel(&ca.methods.iter().map(mkey).collect::<Vec<_>>(), &cb.methods.iter().map(mkey).collect::<Vec<_>>())));
+		out.insert(format!("keyorder:method:{}", key_order_rel(&ca.methods.iter().map(mkey).collect::<Vec<_>>(), &cb.methods.iter().map(mkey).collect::<Vec<_>>())));
 		for ma in &ca.methods {
 			let Some(mb) = cb.methods.iter().find(|m| mkey(m) == mkey(ma)) else { continue };
 			out.insert(format!("keyrel:parameter:{}", key_rel(&ma.params.iter().map(pkey).collect::<Vec<_>>(), &mb.params.iter().map(pkey).collect::<Vec<_>>())));
+			out.insert(format!("keyorder:parameter:{}", key_order_rel(&ma.params.iter().map(pkey).collect::<Vec<_>>(), &mb.params.iter().map(pkey).collect::<Vec<_>>())));
 			for pa in &ma.params {
 				let Some(pb) = mb.params.iter().find(|p| p.index == pa.index) else { continue };
 				out.insert(format!("param-first-name on a shared parameter:{}", match (&pa.names[0], &pb.names[0]) {
@@ -736,7 +769,7 @@ fn rel_entries(rng: &mut Rng, level: usize, idx: &[usize], docs: bool) -> Vec<MC
 pub fn run(ctx: &Ctx) -> anyhow::Result<Report> {
 	let mut r = Report::new("C09", "C09.Run");
 	let mut rng = Rng::new(ctx.seed);
-	r.rule = "pairs (A over (s,a), B over (s,b)): A from the shared mapping-set generator; B derived from A's source keys (each class/field/method/parameter kept with new b-name and own comment, dropped, or added from an independent set; B's order shuffled). Comments include the empty comment Some(\"\") on either or both sides (against absent, empty and text). Streams: clean (all conflicts removed), one injected conflict of each documented kind (first namespace - an unrelated name, or B's namespaces a permutation of / overlapping with A's: (s,a)x(a,s), (s,a)x(b,s), (s,a)x(a,b), (s,s)x(b,s); comment at top/class/field/method/parameter level, the two comments differing by suffix, prefix, emptiness, trailing blank, one character, truncation or entirely; parameter first name different / absent on one side), namespaces (all 81 assignments of three names to the four namespace positions on pairs that otherwise merge: Err exactly when the FIRST namespaces differ), raw (whatever the derivation produced), edge pairs (empty, identical, disjoint), the repository's fixture (VERIF_REPO; a note if missing). Further streams: relations (every relation between the key sets of two corresponding maps - both empty, one empty, equal, A a non-empty strict subset of B, B of A, disjoint, partial overlap - constructed at each of the four levels, alone and inside generated surroundings), empty-name (hypothesis-violating: an empty name Some(\"\") in a second column or an empty second namespace name, put in through the public Names::change_name / rename_namespaces; merge must refuse, and no result may contain an empty name; compared with the model without the wf2 guard, CMergeRaw). Every pair goes through Mappings::merge, an independent reference join, the commutation oracle (merge(B,A) = merge(A,B) with columns a/b exchanged up to order, Err with Err; and the real reorder of merge(A,B) to (s,b,a) = merge(B,A)), the key-union, column, projection and error-iff-conflict oracles - all compared up to the order of entries, the property promises no iteration order - and into Coq as a CMerge case (exact comparison incl. order: there the model follows the code, and an order difference is a model/implementation disagreement, not a property violation). Non-trivial: at least one entry in A or B; distinct by (A,B).".into();
+	r.rule = "pairs (A over (s,a), B over (s,b)): A from the shared mapping-set generator; B derived from A's source keys (each class/field/method/parameter kept with new b-name and own comment, dropped, or added from an independent set; B's order shuffled). Comments include the empty comment Some(\"\") on either or both sides (against absent, empty and text). Streams: clean (all conflicts removed), one injected conflict of each documented kind (first namespace - an unrelated name, or B's namespaces a permutation of / overlapping with A's: (s,a)x(a,s), (s,a)x(b,s), (s,a)x(a,b), (s,s)x(b,s); comment at top/class/field/method/parameter level, the two comments differing by suffix, prefix, emptiness, trailing blank, one character, truncation or entirely; parameter first name different / absent on one side), namespaces (all 81 assignments of three names to the four namespace positions on pairs that otherwise merge: Err exactly when the FIRST namespaces differ), raw (whatever the derivation produced), edge pairs (empty, identical, disjoint), the repository's fixture (VERIF_REPO; a note if missing). Further streams: relations (every relation between the key sets of two corresponding maps - both empty, one empty, equal, A a non-empty strict subset of B, B of A, disjoint, partial overlap - constructed at each of the four levels, alone and inside generated surroundings), prefix (ORDERED: at one of the four levels the insertion-ordered key list of one side is a strict prefix of the other's while every other level lists the same keys in the same order - both directions, k = 1.. entries kept; the ordered relation of every pair of corresponding maps is counted under keyorder:), empty-name (hypothesis-violating: an empty name Some(\"\") in a second column or an empty second namespace name, put in through the public Names::change_name / rename_namespaces; merge must refuse, and no result may contain an empty name; compared with the model without the wf2 guard, CMergeRaw). Every pair goes through Mappings::merge, an independent reference join, the commutation oracle (merge(B,A) = merge(A,B) with columns a/b exchanged up to order, Err with Err; and the real reorder of merge(A,B) to (s,b,a) = merge(B,A)), the key-union, column, projection and error-iff-conflict oracles - all compared up to the order of entries, the property promises no iteration order - and into Coq as a CMerge case (exact comparison incl. order: there the model follows the code, and an order difference is a model/implementation disagreement, not a property violation). Non-trivial: at least one entry in A or B; distinct by (A,B).".into();
 
 	// 0. the repository's own fixture
 	{
@@ -862,6 +895,40 @@ pub fn run(ctx: &Ctx) -> anyhow::Result<Report> {
 			sanitize(&mut rg, &a, &mut b);
 			r.count(&format!("relations-stream:level {}:{}", ["class", "field", "method", "parameter"][level], key_rel(ia, ib)));
 			through(&mut r, "relations", &a, &b);
+		} } }
+	}
+
+	// ordered prefixes: at one level (the class maps; the field / method maps of a class both sides have; the parameter
+	// maps of a method both sides have) the insertion-ordered key list of one side is a STRICT PREFIX of the other's;
+	// at every other level both sides list the same keys in the same order (what two sorted files look like).  A
+	// positional pairing of the two maps (instead of the join by key) loses exactly the tail.
+	{
+		let mut rg = rng.fork(0x505245);
+		let variants = if ctx.thorough { 12 } else { 4 };
+		for level in 0..4usize { for a_shorter in [true, false] { for v in 0..variants {
+			let mut cfg = GenCfg::new(2); cfg.max_classes = 3; cfg.max_members = 3; cfg.docs = v % 2 == 0;
+			let mut a = if v == 0 { MMappings { ns: vec![cps_str("official"), cps_str("intermediary")], doc: None, classes: vec![] } } else { gen_mappings(&mut rg, &cfg) };
+			// a host with three entries of every kind, first in the class list, and a second class behind it
+			let mut host = rel_entries(&mut rg, 3, &[0, 1, 2], cfg.docs).remove(0);
+			host.names[0] = Some(cps_str("pre/Host"));
+			host.fields = rel_entries(&mut rg, 1, &[0, 1, 2], cfg.docs).remove(0).fields;
+			host.methods.extend(rel_entries(&mut rg, 2, &[0, 1, 2], cfg.docs).remove(0).methods);
+			a.classes.retain(|c| ckey(c) != ckey(&host));
+			a.classes.insert(0, host);
+			if a.classes.len() < 3 { for i in a.classes.len()..3 { a.classes.push(MClass { names: vec![Some(cps_str(&format!("pre/Tail{i}"))), second(&mut rg, &CLS2)], doc: None, fields: vec![], methods: vec![] }); } }
+			let mut b = mirror_b(&mut rg, &a, cfg.docs);
+			{
+				let short = if a_shorter { &mut a } else { &mut b };
+				match level {
+					0 => { let k = rg.range(1, short.classes.len() - 1); short.classes.truncate(k); }
+					1 => { let k = rg.range(1, 2); short.classes[0].fields.truncate(k); }
+					2 => { let k = rg.range(1, short.classes[0].methods.len() - 1); short.classes[0].methods.truncate(k); }
+					_ => { let k = rg.range(1, 2); short.classes[0].methods[0].params.truncate(k); }
+				}
+			}
+			sanitize(&mut rg, &a, &mut b);
+			r.count(&format!("prefix-stream:level {}:{}", ["class", "field", "method", "parameter"][level], if a_shorter { "A's key list is a strict prefix of B's" } else { "B's key list is a strict prefix of A's" }));
+			through(&mut r, "prefix", &a, &b);
 		} } }
 	}
 
